@@ -433,6 +433,7 @@ func main() {
 	seeds := []string{wd.seed + " s1", wd.seed + " s2", wd.seed + " s3"}
 	lastID, lastSeed, lastPw, scenarioLeft := "", "", "", 0
 	hangs := 0
+	usedSeed := ""
 	for i := 0; i < count; i++ {
 		rt := routes[rng.Intn(len(routes))]
 		uri := rt.URI
@@ -442,6 +443,7 @@ func main() {
 		}
 		vals := url.Values{}
 		scenario := false
+		var recoverReq map[string]interface{}
 		if scenarioLeft == 0 && rng.Intn(25) == 0 {
 			scenarioLeft = 3 + rng.Intn(6)
 			lastID = ""
@@ -462,6 +464,7 @@ func main() {
 				if lastSeed != "" && vals.Get("type") == "bip44" {
 					vals.Set("seed", "abandon abandon abandon abandon abandon abandon abandon abandon abandon abandon abandon about")
 				}
+				usedSeed = vals.Get("seed")
 				if rng.Intn(3) == 0 {
 					lastPw = "pw"
 					vals.Set("encrypt", "true")
@@ -469,7 +472,17 @@ func main() {
 				}
 			} else {
 				vals.Set("id", lastID)
-				switch rng.Intn(8) {
+				switch rng.Intn(9) {
+				case 8:
+					// recovery of an encrypted wallet from its seed (succeeds when the wallet is encrypted), with or without a new password
+					uri = "/api/v2/wallet/recover"
+					recoverReq = map[string]interface{}{"id": lastID, "seed": usedSeed}
+					if rng.Intn(2) == 0 {
+						recoverReq["password"] = "pw"
+					}
+					if rng.Intn(5) == 0 {
+						recoverReq["seed"] = "not the seed of this wallet"
+					}
 				case 0, 1:
 					uri = "/api/v1/wallet/unload"
 				case 2:
@@ -539,7 +552,9 @@ func main() {
 					m[k] = v[0]
 				}
 			}
-			if verifyReq && uri == "/api/v1/injectTransaction" {
+			if recoverReq != nil {
+				m = recoverReq
+			} else if verifyReq && uri == "/api/v1/injectTransaction" {
 				m = map[string]interface{}{"rawtx": pick(wd.encTxns)}
 			} else if verifyReq {
 				m = map[string]interface{}{"encoded_transaction": pick(wd.encTxns)}
@@ -569,7 +584,7 @@ func main() {
 				}
 			}
 			body, _ = json.Marshal(m)
-			if !verifyReq && !spendReq && rng.Intn(10) == 0 {
+			if !verifyReq && !spendReq && recoverReq == nil && rng.Intn(10) == 0 {
 				body = body[:len(body)/2] // cut JSON
 			}
 			ctype = "application/json"
